@@ -191,8 +191,8 @@ def _pos(lim, grow):
 
 
 HARNESSES = [
-    Harness("H11a", h11a_cell, dict(row=IntDom(), col=IntDom(), R=Cases([1, 3]), C=Cases([1, 2])),
-            bounds="row, col: every Python int; table shapes {1,3} x {1,2}",
+    Harness("H11a", h11a_cell, lambda tier: dict(row=IntDom(), col=IntDom(), R=Cases([1, 3] if tier == "quick" else [1, 2, 3, 5]), C=Cases([1, 2] if tier == "quick" else [1, 2, 4])),
+            bounds="row, col: every Python int; table shapes {1,3} x {1,2} (quick) / {1,2,3,5} x {1,2,4} (thorough)",
             stubs=["Table built with object.__new__ over a grid of real empty cells; model stub (merge map empty, header counts 1)"]),
     Harness("H11b", h11b_write,
             dict(row=IntDom(), col=IntDom(), R=Cases([1, 2]), C=Cases([1, 2]), a1=Cases([False, True]), how=Cases(["write", "style"])),
@@ -201,8 +201,8 @@ HARNESSES = [
             outside=["growth by more than 3 rows/columns inside the limits (loops are unrolled concretely)",
                      "set_cell_formatting / set_cell_border position handling beyond _validate_cell_coords"]),
     Harness("H11c", h11c_iter,
-            dict(R=Cases([1, 3]), C=Cases([2]), mn_r=IntDom(), mx_r=IntDom(), mn_c=IntDom(), mx_c=IntDom(),
+            lambda tier: dict(R=Cases([1, 3] if tier == "quick" else [1, 2, 3, 4]), C=Cases([2] if tier == "quick" else [1, 2, 3]), mn_r=IntDom(), mx_r=IntDom(), mn_c=IntDom(), mx_c=IntDom(),
                  d_mn_r=BoolDom(), d_mx_r=BoolDom(), d_mn_c=BoolDom(), d_mx_c=BoolDom(), by_cols=Cases([False, True])),
-            bounds="min/max row/col: every Python int or None (default); shapes {1,3} x {2}"),
+            bounds="min/max row/col: every Python int or None (default); shapes {1,3} x {2} (quick) / {1..4} x {1,2,3} (thorough)"),
 ]
 PROPERTY = "C11"
